@@ -26,6 +26,9 @@ Inductive obs :=
 
 Inductive case :=
 | CRewrite (input : tree) (path : list nat) (o : opk) (impl : obs)
+| CSeq (input : tree) (prefix : list (list nat * opk)) (mid : tree) (path : list nat) (o : opk) (impl : obs)
+       (* several rewrites in a row on the same objects: [prefix] ran without error and gave [mid] (as observed), then
+          [o] at [path] gave [impl] *)
 | CToWf (input : tree) (impl : result wf)
 | CSfg (n m : Z) (impl : result Z)
 | CCrash.
@@ -47,7 +50,9 @@ Definition nlist_eqb (a b : list N) : bool := list_eqb N.eqb a b.
 Fixpoint tree_eqb (a b : tree) : bool :=
   match a, b with
   | Node r w m ch, Node r' w' m' ch' =>
-      (r =? r') && opt_eqb wf_eqb w w' && nlist_eqb m m' &&
+      (* measurements: only their presence is compared — it steers _has_single_child_that_can_be_merged; which windows
+         survive a rewrite is C02's subject, not part of this property *)
+      (r =? r') && opt_eqb wf_eqb w w' && Bool.eqb (has_meas (Node r w m ch)) (has_meas (Node r' w' m' ch')) &&
       (fix go (l : list tree) (l' : list tree) : bool :=
          match l, l' with
          | [], [] => true
@@ -105,18 +110,31 @@ Definition result_Z_eqb (a b : result Z) : bool :=
   | _, _ => false
   end.
 
+Definition corr_step (input : tree) (path : list nat) (o : opk) (impl : obs) : bool :=
+  match run_op o path input, impl with
+  | Ok t', ObsOk after _ dp bal =>
+      tree_eqb t' after &&
+      match node_at path after with
+      | Some n => (depth n =? dp) && Bool.eqb (balanced n) bal      (* Node.depth / Node.is_balanced *)
+      | None => match o with OUnroll => true | _ => false end        (* the unrolled node is gone *)
+      end
+  | Err e, ObsErr e' after => err_eqb e e' && tree_eqb input after   (* a failed rewrite leaves the program as it was *)
+  | _, _ => false
+  end.
+
+Fixpoint run_prefix (steps : list (list nat * opk)) (t : tree) : result tree :=
+  match steps with
+  | [] => Ok t
+  | (p, o) :: r => bind (run_op o p t) (run_prefix r)
+  end.
+
 Definition check_corr (c : case) : bool :=
   match c with
-  | CRewrite input path o impl =>
-      match run_op o path input, impl with
-      | Ok t', ObsOk after _ dp bal =>
-          tree_eqb t' after &&
-          match node_at path after with
-          | Some n => (depth n =? dp) && Bool.eqb (balanced n) bal      (* Node.depth / Node.is_balanced *)
-          | None => match o with OUnroll => true | _ => false end        (* the unrolled node is gone *)
-          end
-      | Err e, ObsErr e' after => err_eqb e e' && tree_eqb input after   (* a failed rewrite leaves the program as it was *)
-      | _, _ => false
+  | CRewrite input path o impl => corr_step input path o impl
+  | CSeq input prefix mid path o impl =>
+      match run_prefix prefix input with
+      | Ok m => tree_eqb m mid && corr_step m path o impl
+      | Err _ => false
       end
   | CToWf input impl => result_wf_eqb (to_waveform input) impl
   | CSfg n m impl => result_Z_eqb (smallest_factor_ge n m) impl
@@ -168,23 +186,28 @@ Definition post (o : opk) (n_before n : tree) (dp : Z) (bal : bool) : bool :=
   | _ => true
   end.
 
+Definition spec_step (input : tree) (path : list nat) (o : opk) (impl : obs) : bool :=
+  match impl with
+  | ObsOk after dur dp bal =>
+      pieces_equivb (pieces after) (pieces input)
+      && Qeq_bool (duration after) (duration input)
+      && Qeq_bool dur (duration input)
+      && match o, node_at path input, node_at path after with
+         | OUnroll, _, _ => true
+         | _, Some nb, Some n => post o nb n dp bal
+         | _, _, _ => false
+         end
+  | ObsErr e after =>
+      err_allowed input path o e && pieces_equivb (pieces after) (pieces input)
+      && Qeq_bool (duration after) (duration input)
+  end.
+
 Definition check_spec (c : case) : bool :=
   match c with
-  | CRewrite input path o impl =>
-      match impl with
-      | ObsOk after dur dp bal =>
-          pieces_equivb (pieces after) (pieces input)
-          && Qeq_bool (duration after) (duration input)
-          && Qeq_bool dur (duration input)
-          && match o, node_at path input, node_at path after with
-             | OUnroll, _, _ => true
-             | _, Some nb, Some n => post o nb n dp bal
-             | _, _, _ => false
-             end
-      | ObsErr e after =>
-          err_allowed input path o e && pieces_equivb (pieces after) (pieces input)
-          && Qeq_bool (duration after) (duration input)
-      end
+  | CRewrite input path o impl => spec_step input path o impl
+  | CSeq input prefix mid path o impl =>
+      pieces_equivb (pieces mid) (pieces input) && Qeq_bool (duration mid) (duration input)
+      && spec_step mid path o impl
   | CToWf input impl =>
       match impl with
       | Ok x => pieces_equivb (wf_pieces x) (pieces input) && Qeq_bool (wf_dur x) (duration input)
